@@ -14,8 +14,34 @@ CLAIMED = {}
 NOT_BUILT = {}
 
 
+# what round 6 of the seeding loop added to each check (appended to the text of the claim)
+ROUND6 = {
+    'C01': ' Inputs are set through Evaluator.set_cell_value and through Model.set_cell_value; IEEE environments of magnitudes 1e-16 and 1e-300.',
+    'C03': ' Families empty-sheet (references, ranges, COUNTA, ISBLANK into a worksheet of the file on which nothing is stored) and name-scoped '
+           '(a defined name of the same spelling scoped to another worksheet next to the workbook-level name), both through generated .xlsx files.',
+    'C04': ' Shape deep: a chain of 120 formula cells with a side input; all histories of length 3 of Set | Evaluate with evaluation targets near '
+           'the top, in the middle and at the end (mechanisms that switch on past a depth threshold).',
+    'C05': ' Chains of 60 - 700 formula cells under 7 schedules over 2 evaluators: one response per chain whatever was evaluated before '
+           '(Deterministic / Idempotent in their two-run form: the depth lies beyond what the implementation descends to).',
+    'C06': ' One sixteenth of the replayed graphs stand in a model with 320 unrelated formula cells (isolated nodes leave the outcome unchanged).',
+    'C07': ' Concatenations whose operands are within the text limit of a cell and whose result is not, and arithmetic on text a date parser reads '
+           'as a date with a time zone: the value is left open, a Python exception from an operator on two scalars is rejected (Trace_Local!TotalOp).',
+    'C08': ' Every spelled-argument case again with the call in the chosen branch of an IF; operator chains a&b&..., a+b+..., a*b*... over '
+           '3 - 300 referenced cells of every scalar type (TLC-judged).',
+    'C09': ' Texts whose case mapping changes their length among the law values.',
+    'C12': ' The text "Infinity" as a constant and inside a string literal of a formula.',
+    'C13': ' A defined name spelt letters-then-digits beyond column XFD (GROWTH2024) in the extraction histories.',
+    'C14': ' Texts that merely spell an error code among the cells; 16x16 / 17x17 numeric grids (more than 255 numbers in one call).',
+    'C15': ' Keys and criteria whose doubles take 16 - 17 digits; zero operands ("=0", "<>0", "0"); approximate MATCH on ascending columns of '
+           'mixed types, determined wherever the position holds a value of the key\'s own type.',
+    'C16': ' Numbers of 1E+15 and more whose double is not the decimal they are written as, in every run of the driver.',
+    'C19': ' The characters between "9" and "A" and after "Z" among the damaged digits.',
+    'C20': ' IRR / XIRR flows in whole millions (a root is a root whatever the unit).',
+}
+
+
 def claim(pid, technique, text, note, ref):
-    CLAIMED[pid] = (technique, text, note, ref)
+    CLAIMED[pid] = (technique, text + ROUND6.get(pid, ''), note, ref)
 
 
 claim('C17',
